@@ -204,14 +204,281 @@ LarftInst(n, k, v) ==
 LarftCases == {[m |-> n, n |-> k, v |-> v] : n \in 1 .. Small + 2, k \in 1 .. 5, v \in 0 .. 7}
 
 (****************************************************************************)
+(* Pivoted QR (Dgeqp3):  A * P0 = Q0 * R0.                                  *)
+(*  Q0 signed permutation as above; P0 a column permutation whose first nf  *)
+(*  positions hold the nf FIXED columns (marked in the input jpvt) in        *)
+(*  ascending index order - exactly what the documented pre-processing does; *)
+(*  R0 upper trapezoidal with, for every free step t >= nf,                 *)
+(*        |r_tt| = 6*(k-t)+6   and   all entries above the diagonal (dense) *)
+(*  of modulus <= 2, so that                                                *)
+(*        r_tt^2  >=  12 + sum_{i>=t} r_ic^2   for every later column c:    *)
+(*  the remaining column of largest norm is unique (by a relative margin    *)
+(*  > 0.7 %, far above rounding in the norm down-dating) at every step, so  *)
+(*  column pivoting must return jpvt = P0, R = S*R0 and Q = Q0*S.           *)
+(*  PlantedLemmas!PivotLemma checks the dominance and A*P0 = Q0*R0.         *)
+(****************************************************************************)
+Qp3Inst(m, n, nf) ==
+  LET k == Min(m, n)
+      perm == Pos(Fn([t \in 0 .. m - 1 |-> t + (H(t, m + n, 41) % (m - t))]), m, m)
+      qidx == InvPerm(perm, m)
+      sg == Fn([t \in 0 .. m - 1 |-> Sign(t, m, 43)])
+      cp == Pos(Fn([t \in 0 .. n - 1 |-> t + (H(t, n * 3 + m, 42) % (n - t))]), n, n)
+      F == {cp[i] : i \in 0 .. nf - 1}
+      p0 == Fn([j \in 0 .. n - 1 |-> IF j < nf THEN CHOOSE w \in F : Cardinality({y \in F : y < w}) = j ELSE cp[j]])
+      p0inv == InvPerm(p0, n)
+      Rv(t, c) == IF c < t THEN 0
+                  ELSE IF c = t THEN Sign(t, t, 45) * (IF t < nf THEN Pow2(H(t, t, 46) % 3) ELSE 6 * (k - t) + 6)
+                  ELSE (H(t, c, 47) % 5) - 2
+      R0 == Mat(k, n, Rv)
+      Av(i, c) == IF qidx[i] < k THEN sg[qidx[i]] * R0[qidx[i]][p0inv[c]] ELSE 0
+      A == Mat(m, n, Av)
+      Qv(i, t) == IF perm[t] = i THEN sg[t] ELSE 0
+  IN [fam |-> "qp3", m |-> m, n |-> n, v |-> nf, den |-> 1, k |-> k, nf |-> nf,
+      A |-> MatSeq(A, m, n), RR |-> MatSeq(R0, k, n), Q |-> MatSeq(Mat(m, m, Qv), m, m),
+      jin |-> [j \in 1 .. n |-> IF (j - 1) \in F THEN 0 ELSE -1], jpvt |-> VecSeq(p0, n),
+      tol |-> 30 * Max(Max(m, n), 1) * Norm1(A, m, n)]
+
+Qp3Cases == {[m |-> m, n |-> n, v |-> nf] : m \in 0 .. Small, n \in 0 .. Small, nf \in 0 .. 3}
+              \cup {[m |-> b \div 1000, n |-> b % 1000, v |-> nf] : b \in Big, nf \in {0, 10}}
+
+(****************************************************************************)
+(* Triangular inverses and solves (Dtrtri, Dtrti2, Dtrtrs, Dgetri, Dpotri). *)
+(*   M = (I + N1) * (I + N2),  N1 non-zero only in rows < a, columns >= a,  *)
+(*   N2 only in rows < b, columns >= b  (a < b), entries in -2..2 (dense).  *)
+(*   N1^2 = N2^2 = N2*N1 = 0, hence  M^{-1} = I - N1 - N2  exactly, and     *)
+(*   M = I + N1 + N2 + N1*N2 is a dense-looking integer unit upper          *)
+(*   triangular matrix.  T = M * D with D = diag(+-2^e) (variant 1: D = I,  *)
+(*   unit diagonal not referenced; variant 2: one d_k = 0, singular), so    *)
+(*   T^{-1} = D^{-1} * (I - N1 - N2), printed times 4.                      *)
+(*   Solves: B = T * X0, BT = T^T * X0 with integer X0.                     *)
+(*   Dpotri: A = T^T*T with positive D;  A^{-1} = T^{-1} * T^{-T} (times 16).*)
+(*   Dgetri: A = P0^T * L * T with L = I + Lh/2, Lh non-zero only in rows   *)
+(*   >= a, columns < a (Lh^2 = 0, L^{-1} = I - Lh/2, |l| <= 1/2 keeps the   *)
+(*   planted pivots unique);  A^{-1} = T^{-1} * (I - Lh/2) * P0 (times 8).  *)
+(* PlantedLemmas!InverseLemma checks T*Tinv = I, A*Ainv = I on the          *)
+(* instances.                                                               *)
+(****************************************************************************)
+TriInst(n, v, deep) ==
+  LET a == (n + 1) \div 3
+      b == (2 * n + 1) \div 3
+      kz == IF v = 2 THEN H(n, v, 55) % n ELSE -1
+      d == Fn([i \in 0 .. n - 1 |-> IF v = 1 THEN 1 ELSE IF i = kz THEN 0
+                                     ELSE (IF deep THEN 1 ELSE Sign(i, n, 51)) * Pow2(H(i, n, 52) % 3)])
+      N1(i, j) == IF i < a /\ j >= a THEN (H(i, j, 53) % 5) - 2 ELSE 0
+      N2(i, j) == IF i < b /\ j >= b THEN (H(i, j, 54) % 5) - 2 ELSE 0
+      N1m == Mat(n, n, N1)
+      N2m == Mat(n, n, N2)
+      Mv(i, j) == (IF i = j THEN 1 ELSE 0) + N1m[i][j] + N2m[i][j]
+                  + (IF i < a /\ j >= b THEN SumR(LAMBDA k : N1m[i][k] * N2m[k][j], a, b - 1) ELSE 0)
+      T == Mat(n, n, LAMBDA i, j : Mv(i, j) * d[j])
+      \* 4 * T^{-1}[i][j] = (4 / d_i) * (delta_ij - N1 - N2)   (not used when singular)
+      Ti4 == Mat(n, n, LAMBDA i, j : IF d[i] = 0 THEN 0
+                 ELSE (4 \div d[i]) * ((IF i = j THEN 1 ELSE 0) - N1m[i][j] - N2m[i][j]))
+      R == IF v = 2 THEN 0 ELSE Nrhs
+      Xm == Mat(n, R, LAMBDA i, j : (H(i, j, 56) % 9) - 4)
+      Bm == Mat(n, R, LAMBDA i, j : SumR(LAMBDA k : T[i][k] * Xm[k][j], i, n - 1))
+      BTm == Mat(n, R, LAMBDA i, j : SumR(LAMBDA k : T[k][i] * Xm[k][j], 0, i))
+      \* Cholesky inverse (deep, v = 0): 16 * (T^{-1} T^{-T})[i][j]
+      PI == Mat(n, n, LAMBDA i, j : IF deep /\ v = 0 THEN SumR(LAMBDA k : Ti4[i][k] * Ti4[j][k], Max(i, j), n - 1) ELSE 0)
+      \* LU inverse (deep, v = 0)
+      Lh(i, j) == IF i >= a /\ j < a THEN (H(i, j, 57) % 3) - 1 ELSE 0
+      Lhm == Mat(n, n, Lh)
+      ipiv == Fn([j \in 0 .. n - 1 |-> j + (H(j, n, 58) % (n - j))])
+      inv == InvPerm(Pos(ipiv, n, n), n)
+      \* 8 * (T^{-1} (I - Lh/2))[i][j] = 2*Ti4[i][j] - sum_k Ti4[i][k] * Lh[k][j]
+      W == Mat(n, n, LAMBDA i, j : IF deep /\ v = 0
+                 THEN 2 * Ti4[i][j] - (IF j < a THEN SumR(LAMBDA k : Ti4[i][k] * Lhm[k][j], Max(a, i), n - 1) ELSE 0) ELSE 0)
+      \* 2 * (L*T)[i][j]
+      LT2 == Mat(n, n, LAMBDA i, j : IF deep /\ v = 0
+                 THEN 2 * T[i][j] + (IF i >= a THEN SumR(LAMBDA k : Lhm[i][k] * T[k][j], 0, Min(a - 1, j)) ELSE 0) ELSE 0)
+  IN [fam |-> "tri", m |-> n, n |-> n, v |-> v, den |-> 1, kz |-> kz, unit |-> (v = 1), ok |-> (v # 2), deep |-> (deep /\ v = 0),
+      T |-> MatSeq(T, n, n), Inv |-> MatSeq(Ti4, n, n),
+      R |-> R, X |-> MatSeq(Xm, n, R), B |-> MatSeq(Bm, n, R), BT |-> MatSeq(BTm, n, R),
+      PI |-> MatSeq(PI, n, n),
+      LU |-> MatSeq(Mat(n, n, LAMBDA i, j : IF i > j THEN Lhm[i][j] ELSE 2 * T[i][j]), n, n),
+      ipiv |-> VecSeq(ipiv, n),
+      A |-> MatSeq(Fn([i \in 0 .. n - 1 |-> LT2[inv[i]]]), n, n),
+      AI |-> MatSeq(Mat(n, n, LAMBDA i, j : W[i][inv[j]]), n, n),
+      tol |-> 30 * Max(n, 1) * (Norm1(T, n, n) + NormInf(Ti4, n, n))]
+
+\* "deep" instances (with the Cholesky and LU inverses) up to DeepMax; larger sizes only triangular
+DeepMax == 100
+TriCases == {[n |-> n, v |-> v] : n \in (0 .. Small) \cup {b % 1000 : b \in Big}, v \in {0, 1, 2}}
+
+(****************************************************************************)
+(* Least squares / minimum norm (Dgels), m >= n, A = Q0 * R0 of full column *)
+(* rank: Q0 signed permutation (Q1 = its first n columns, Q2 the rest),     *)
+(* R0 upper triangular with diagonal +-16 and at most 3 entries of modulus  *)
+(* <= 2 right of the diagonal in each row (row diagonally dominant:         *)
+(* ||R0^{-1}||_inf <= 1/10, kappa_inf(A) <= 2.2, max|a_ij| = 16 = 2^4).     *)
+(*  least squares:  BLS = A*X0 + Q2*Rho  (residual orthogonal to range(A)), *)
+(*                  so the unique minimiser of ||A*X - BLS|| is X0;         *)
+(*  minimum norm:   BMN = A^T*XMN with XMN = Q1*Y0 in range(A), so XMN is   *)
+(*                  the minimum norm solution of A^T*X = BMN.               *)
+(* The transposed array drives the m < n cases of Dgels.  Variant 1 plants  *)
+(* r_kk = 0 (rank deficient: ok must be false).  Scaling of A and B by      *)
+(* powers of two (exact) multiplies the answers by 2^(eb-ea).               *)
+(* PlantedLemmas!LsLemma checks the normal equations A^T(A*X0 - BLS) = 0,   *)
+(* A^T*XMN = BMN and XMN = A*W for an integer-rational W (range condition   *)
+(* through Q2^T*XMN = 0).                                                   *)
+(****************************************************************************)
+LsInst(m, n, v) ==
+  LET perm == Pos(Fn([t \in 0 .. m - 1 |-> t + (H(t, m + n, 61) % (m - t))]), m, m)
+      qidx == InvPerm(perm, m)
+      sg == Fn([t \in 0 .. m - 1 |-> Sign(t, m, 62)])
+      kz == IF v = 1 THEN H(m, n, 63) % n ELSE -1
+      RCols == Fn([t \in 0 .. n - 1 |-> IF t = n - 1 THEN {} ELSE {t + 1 + (H(t, u, 64) % (n - 1 - t)) : u \in 1 .. 3}])
+      Rv(t, c) == IF c < t THEN 0
+                  ELSE IF c = t THEN (IF t = kz THEN 0 ELSE Sign(t, t, 65) * 16)
+                  ELSE IF c \in RCols[t] THEN (H(t, c, 66) % 5) - 2 ELSE 0
+      R0 == Mat(n, n, Rv)
+      A == Mat(m, n, LAMBDA i, c : IF qidx[i] < n THEN sg[qidx[i]] * R0[qidx[i]][c] ELSE 0)
+      R == Nrhs
+      X0 == Mat(n, R, LAMBDA i, j : (H(i, j, 67) % 9) - 4)
+      Y0 == Mat(n, R, LAMBDA i, j : (H(i, j, 68) % 9) - 4)
+      Rho == Mat(m, R, LAMBDA t, j : IF t < n THEN 0 ELSE (H(t, j, 69) % 7) - 3)
+      RX == Mat(n, R, LAMBDA t, j : SumSet(LAMBDA c : R0[t][c] * X0[c][j], RCols[t] \cup {t}))
+      BLS == Mat(m, R, LAMBDA i, j : sg[qidx[i]] * (IF qidx[i] < n THEN RX[qidx[i]][j] ELSE Rho[qidx[i]][j]))
+      XMN == Mat(m, R, LAMBDA i, j : IF qidx[i] < n THEN sg[qidx[i]] * Y0[qidx[i]][j] ELSE 0)
+      BMN == Mat(n, R, LAMBDA c, j : SumR(LAMBDA t : R0[t][c] * Y0[t][j], 0, c))
+  IN [fam |-> "ls", m |-> m, n |-> n, v |-> v, den |-> 1, ok |-> (v = 0), kz |-> kz, R |-> R,
+      A |-> MatSeq(A, m, n), X |-> MatSeq(X0, n, R), B |-> MatSeq(BLS, m, R),
+      XMN |-> MatSeq(XMN, m, R), BMN |-> MatSeq(BMN, n, R),
+      Q |-> MatSeq(Mat(m, m, LAMBDA i, t : IF perm[t] = i THEN sg[t] ELSE 0), m, m),
+      tol |-> 100 * Max(m, 1) * (1 + NormMax(X0, n, R) + NormMax(XMN, m, R))]
+
+LsCases == {[m |-> s[1], n |-> s[2], v |-> v] : s \in Shapes2, v \in {0, 1}}
+
+(****************************************************************************)
+(* Tridiagonal systems.                                                     *)
+(*  "pt": symmetric positive definite A = L*D*L^T, L unit lower bidiagonal  *)
+(*   (integers l_i in -2..2), D = diag(2^k): a_i = D_i + l_{i-1}^2 D_{i-1}, *)
+(*   e_i = l_i D_i.  Dpttrf must return (D, l); variant 1 plants one        *)
+(*   D_k = -2 (not positive definite: ok = false).  B = A*X0.               *)
+(*  "gt": general A = S*(L*U), L unit lower bidiagonal (l_i in {0,+-1/2}),  *)
+(*   U upper bidiagonal (u_i = +-2^k, k in 1..3, c_i in -3..3), S a         *)
+(*   diagonal of powers of two.  With S = I (variant 0) partial pivoting    *)
+(*   never interchanges; in variant 1 (n <= 12 only) S grows by a factor 4  *)
+(*   at formula-chosen rows, which forces interchanges there while all      *)
+(*   multipliers stay dyadic.  A is non-singular (u_i # 0), so X0 is the    *)
+(*   unique solution of A*X = B := A*X0.  Values times den = 2.             *)
+(****************************************************************************)
+TdInst(n, v) ==
+  LET R == Nrhs
+      X == Mat(n, R, LAMBDA i, j : (H(i, j, 71) % 9) - 4)
+      \* ---- pt
+      kb == IF v = 1 THEN H(n, v, 72) % n ELSE -1
+      D == Fn([i \in 0 .. n - 1 |-> IF i = kb THEN -2 ELSE Pow2(H(i, n, 73) % 3)])
+      l == Fn([i \in 0 .. n - 2 |-> (H(i, n, 74) % 5) - 2])
+      pa == Fn([i \in 0 .. n - 1 |-> D[i] + (IF i > 0 THEN l[i - 1] * l[i - 1] * D[i - 1] ELSE 0)])
+      pe == Fn([i \in 0 .. n - 2 |-> l[i] * D[i]])
+      PB == Mat(n, R, LAMBDA i, j : pa[i] * X[i][j] + (IF i > 0 THEN pe[i - 1] * X[i - 1][j] ELSE 0)
+                                     + (IF i < n - 1 THEN pe[i] * X[i + 1][j] ELSE 0))
+      \* ---- gt (times 2)
+      u == Fn([i \in 0 .. n - 1 |-> Sign(i, n, 75) * Pow2(1 + (H(i, n, 76) % 3))])
+      ln == Fn([i \in 0 .. n - 2 |-> (H(i, n, 77) % 3) - 1])       \* l_i = ln_i / 2
+      cc == Fn([i \in 0 .. n - 2 |-> (H(i, n, 78) % 7) - 3])
+      RECURSIVE sAt(_)
+      sAt(i) == IF i = 0 THEN 0 ELSE sAt(i - 1) + (IF v = 1 /\ n <= 12 /\ H(i, n, 79) % 2 = 0 THEN 2 ELSE 0)
+      sc == Fn([i \in 0 .. n - 1 |-> Pow2(sAt(i))])
+      gdl == Fn([i \in 0 .. n - 2 |-> sc[i + 1] * ln[i] * u[i]])                           \* 2 * dl'_i
+      gd == Fn([i \in 0 .. n - 1 |-> sc[i] * (2 * u[i] + (IF i > 0 THEN ln[i - 1] * cc[i - 1] ELSE 0))])
+      gdu == Fn([i \in 0 .. n - 2 |-> sc[i] * 2 * cc[i]])
+      GB == Mat(n, R, LAMBDA i, j : gd[i] * X[i][j] + (IF i > 0 THEN gdl[i - 1] * X[i - 1][j] ELSE 0)
+                                     + (IF i < n - 1 THEN gdu[i] * X[i + 1][j] ELSE 0))
+      npiv == Cardinality({i \in 0 .. n - 2 : Abs(gdl[i]) > Abs(sc[i] * 2 * u[i])})
+  IN [fam |-> "td", m |-> n, n |-> n, v |-> v, den |-> 2, ok |-> (v = 0), kbad |-> kb, R |-> R,
+      X |-> MatSeq(X, n, R),
+      pd |-> VecSeq(pa, n), pe |-> VecSeq(pe, n - 1), D |-> VecSeq(D, n), l |-> VecSeq(l, n - 1), PB |-> MatSeq(PB, n, R),
+      gdl |-> VecSeq(gdl, n - 1), gd |-> VecSeq(gd, n), gdu |-> VecSeq(gdu, n - 1), GB |-> MatSeq(GB, n, R),
+      npiv |-> npiv,
+      tol |-> 100 * Max(n, 1) * (1 + NormMax(X, n, R)) * 2]
+
+TdCases == {[n |-> n, v |-> v] : n \in (0 .. Small + 4) \cup {b % 1000 : b \in Big}, v \in {0, 1}}
+
+(****************************************************************************)
+(* Auxiliary integer operators: row interchanges (Dlaswp), column / row     *)
+(* permutations (Dlapmt / Dlapmr) and the max / one / infinity norms of     *)
+(* general, symmetric and trapezoidal matrices (Dlange, Dlansy, Dlantr).    *)
+(****************************************************************************)
+RECURSIVE SwapRows(_, _, _, _, _)
+SwapRows(X, ipiv, k, last, step) ==
+  IF (step = 1 /\ k > last) \/ (step = -1 /\ k < last) THEN X
+  ELSE SwapRows(SwapF(X, k, ipiv[k]), ipiv, k + step, last, step)
+
+AuxInst(m, n, v) ==
+  LET A == Mat(m, n, LAMBDA i, j : (H(i, j, 81 + v) % 19) - 9)
+      k1 == IF m = 0 THEN 0 ELSE H(m, n, 82 + v) % m
+      k2 == IF m = 0 THEN -1 ELSE k1 + (H(n, m, 83) % (m - k1))
+      ipiv == Fn([k \in 0 .. k2 |-> IF k < k1 THEN 0 ELSE H(k, m + v, 84) % m])
+      kc == Pos(Fn([t \in 0 .. n - 1 |-> t + (H(t, n + v, 85) % (n - t))]), n, n)
+      kr == Pos(Fn([t \in 0 .. m - 1 |-> t + (H(t, m + v, 86) % (m - t))]), m, m)
+      kcinv == InvPerm(kc, n)
+      krinv == InvPerm(kr, m)
+      mn == Min(m, n)
+      \* symmetric matrix defined by the upper triangle of the leading mn x mn block
+      S == Mat(mn, mn, LAMBDA i, j : IF i <= j THEN A[i][j] ELSE A[j][i])
+      \* trapezoids: up = 1 upper (j >= i), up = 0 lower (j <= i); unit: diagonal counts as 1
+      Tr(up, unit) == Mat(m, n, LAMBDA i, j : IF i = j THEN (IF unit = 1 THEN 1 ELSE A[i][j])
+                                            ELSE IF (up = 1 /\ j > i) \/ (up = 0 /\ j < i) THEN A[i][j] ELSE 0)
+      N3(X, r, cN) == <<NormMax(X, r, cN), Norm1(X, r, cN), NormInf(X, r, cN)>>
+  IN [fam |-> "aux", m |-> m, n |-> n, v |-> v, den |-> 1, A |-> MatSeq(A, m, n),
+      k1 |-> k1, k2 |-> k2, ipiv |-> VecSeq(ipiv, k2 + 1),
+      swF |-> MatSeq(SwapRows(A, ipiv, k1, k2, 1), m, n), swB |-> MatSeq(SwapRows(A, ipiv, k2, k1, -1), m, n),
+      kc |-> VecSeq(kc, n), kr |-> VecSeq(kr, m),
+      pcF |-> MatSeq(Mat(m, n, LAMBDA i, j : A[i][kc[j]]), m, n), pcB |-> MatSeq(Mat(m, n, LAMBDA i, j : A[i][kcinv[j]]), m, n),
+      prF |-> MatSeq(Mat(m, n, LAMBDA i, j : A[kr[i]][j]), m, n), prB |-> MatSeq(Mat(m, n, LAMBDA i, j : A[krinv[i]][j]), m, n),
+      nge |-> N3(A, m, n), nsy |-> N3(S, mn, mn),
+      ntr |-> <<N3(Tr(1, 0), m, n), N3(Tr(1, 1), m, n), N3(Tr(0, 0), m, n), N3(Tr(0, 1), m, n)>>,
+      tol |-> 0]
+
+AuxCases == {[m |-> s[1], n |-> s[2], v |-> v] : s \in Shapes2, v \in {0, 1}}
+
+(****************************************************************************)
+(* Band Cholesky (Dpbtrf, Dpbtf2, Dpbtrs):  A = L0 * D * L0^T with L0 lower *)
+(* triangular of bandwidth kd (diagonal 2^k, integers in -2..2 inside the   *)
+(* band), D = I (variant 0) or one d_k = -1 (variant 1, ok = false).  A has *)
+(* bandwidth kd and its Cholesky factor is L0.  B = A*X0.  Matrices are     *)
+(* printed in full; the harness packs the band storage.                     *)
+(****************************************************************************)
+PbInst(n, kd, v) ==
+  LET kb == IF v = 1 THEN H(n, kd, 91) % n ELSE -1
+      d(k) == IF k = kb THEN -1 ELSE 1
+      L == Mat(n, n, LAMBDA i, j : IF i = j THEN Pow2(H(i, i, 92) % 3)
+                                   ELSE IF j < i /\ i - j <= kd THEN (H(i, j, 93) % 5) - 2 ELSE 0)
+      A == Mat(n, n, LAMBDA i, j : IF Abs(i - j) > kd THEN 0
+                                   ELSE SumR(LAMBDA k : L[i][k] * d(k) * L[j][k], Max(0, Max(i, j) - kd), Min(i, j)))
+      R == IF v = 0 THEN Nrhs ELSE 0
+      X == Mat(n, R, LAMBDA i, j : (H(i, j, 94) % 9) - 4)
+      B == Mat(n, R, LAMBDA i, j : SumR(LAMBDA k : A[i][k] * X[k][j], Max(0, i - kd), Min(n - 1, i + kd)))
+  IN [fam |-> "pb", m |-> n, n |-> n, kd |-> kd, v |-> v, den |-> 1, ok |-> (v = 0), kbad |-> kb, R |-> R,
+      A |-> MatSeq(A, n, n), L |-> MatSeq(L, n, n), X |-> MatSeq(X, n, R), B |-> MatSeq(B, n, R),
+      tol |-> 30 * Max(n, 1) * Norm1(A, n, n)]
+
+PbCases == {[n |-> n, kd |-> kd, v |-> v] : n \in 0 .. Small, kd \in 0 .. Small, v \in {0, 1}}
+             \cup {[n |-> b \div 1000, kd |-> b % 1000, v |-> v] : b \in Big, v \in {0, 1}}
+
+(****************************************************************************)
 Cases == CASE Fam = "lu" -> {x \in LuCases : LuValid(x)}
            [] Fam = "chol" -> {x \in ChCases : ChValid(x)}
            [] Fam = "qr" -> QrCases
+           [] Fam = "qp3" -> {z \in Qp3Cases : z.v <= z.n}
+           [] Fam = "tri" -> {z \in TriCases : z.v # 2 \/ z.n >= 1}
+           [] Fam = "ls" -> {z \in LsCases : z.m >= z.n /\ (z.v = 0 \/ z.n >= 1)}
+           [] Fam = "td" -> {z \in TdCases : z.n >= 1 \/ z.v = 0}
+           [] Fam = "aux" -> AuxCases
+           [] Fam = "pb" -> {z \in PbCases : z.v = 0 \/ z.n >= 1}
            [] Fam = "larft" -> {x \in LarftCases : x.n <= x.m}
 
 Inst(x) == CASE Fam = "lu" -> LuInst(x.m, x.n, x.v)
              [] Fam = "chol" -> ChInst(x.n, x.v)
              [] Fam = "qr" -> QrInst(x.m, x.n)
+             [] Fam = "qp3" -> Qp3Inst(x.m, x.n, x.v)
+             [] Fam = "tri" -> TriInst(x.n, x.v, x.n <= DeepMax)
+             [] Fam = "ls" -> LsInst(x.m, x.n, x.v)
+             [] Fam = "td" -> TdInst(x.n, x.v)
+             [] Fam = "aux" -> AuxInst(x.m, x.n, x.v)
+             [] Fam = "pb" -> PbInst(x.n, x.kd, x.v)
              [] Fam = "larft" -> LarftInst(x.m, x.n, x.v)
 
 Init == cs \in Cases
